@@ -40,10 +40,29 @@ def sameEthAddr (a b : String) : Bool :=
 /-- address-level blacklisting: some stored entry denotes the receiver's address -/
 def addrBlacklisted (bl : List String) (recv : String) : Bool := bl.any (fun b => sameEthAddr b recv)
 
-/-- the export gates: while paused, or with a blacklisted receiver, or for the wrong kind of token
-    (native tokens are only locked, pegged tokens only burned), the message does not succeed -/
-def gateOK (kind : String) (ok : Bool) (paused : Bool) (bl : List String) (peggy : List String) (recv symbol : String) : Bool :=
-  !ok || (!paused && !addrBlacklisted bl recv && (if kind = "lock" then !peggy.contains symbol else peggy.contains symbol))
+/-- A token is pegged if it is in the stored peggy-token list, or if the bridge itself minted it for a consensus-approved
+    lock claim earlier in this history (`minted`: the denominations observed entering the supply through such credits —
+    exact strings).  Judging by `minted` as well keeps the predicate independent of how the keeper maintains its list. -/
+def isPegged (peggy minted : List String) (symbol : String) : Bool := peggy.contains symbol || minted.contains symbol
+
+/-- the export gates: while paused, or with a blacklisted receiver, or for the wrong kind of token (native tokens are
+    only locked, pegged tokens only burned), the message does not succeed; and a burn of a token the bridge minted is
+    never refused as "native" (`res = err.native`) -/
+def gateOK (kind : String) (res : String) (paused : Bool) (bl : List String) (peggy minted : List String) (recv symbol : String) : Bool :=
+  (res != "ok" || (!paused && !addrBlacklisted bl recv &&
+      (if kind = "lock" then !isPegged peggy minted symbol else isPegged peggy minted symbol))) &&
+  (!(kind == "burn" && res == "err.native") || !isPegged peggy minted symbol)
+
+/-- After an accepted claim that turned its prophecy SUCCESS: for a lock claim the stored peggy-token list is the old
+    list plus exactly the credited denomination `"c" ++ symbol` (exact string); for a burn claim it is unchanged. -/
+def peggyRegOK (final : Sif.Oracle.Content) (before after : List String) : Bool :=
+  match final with
+  | .eth _ _ symbol _ ctype =>
+    if ctype = 2 then
+      after.contains (peggedPrefix ++ symbol) && before.all after.contains &&
+        after.all (fun x => before.contains x || x == peggedPrefix ++ symbol)
+    else before.all after.contains && after.all before.contains
+  | .empty => false
 
 /-- after an accepted `MsgSetBlacklist`, every address of the message is blacklisted (some stored entry denotes it) -/
 def blSetOK (requested stored : List String) : Bool := requested.all (addrBlacklisted stored)
